@@ -231,6 +231,13 @@ def on_wire(outer, mid=0x1234, token=b"\x70\x71"):
     return outer.encode()
 
 
+def protect(ctx, msg, *a, **kw):
+    try:
+        return ctx.protect(msg, *a, **kw)
+    except Exception as e:
+        raise ProtectFailed("%r for %s" % (e, msg))
+
+
 class Genuine:
     """One protected message as the peer produced it."""
 
@@ -433,10 +440,10 @@ def run_sample(s):
     if s["role"] == "req":
         plain, secrets_ = build_message(s, rng)
         client.sender_sequence_number = seq
-        outer, _rid = client.protect(plain, kid_context=kc)
+        outer, _rid = protect(client, plain, kid_context=kc)
         g = Genuine("req", plain, outer, secrets_, None)
         client.sender_sequence_number = seq2
-        outer2, _ = client.protect(aiocoap.Message(code=aiocoap.POST, uri_path=("sibling",), payload=b"other request"), kid_context=kc)
+        outer2, _ = protect(client, aiocoap.Message(code=aiocoap.POST, uri_path=("sibling",), payload=b"other request"), kid_context=kc)
         other = Genuine("req", None if False else aiocoap.Message(code=aiocoap.POST), outer2, [], None)
         rid_own = rid_other = None
     else:
@@ -447,7 +454,7 @@ def run_sample(s):
             req = aiocoap.Message(code=aiocoap.GET, uri_path=("r",))
             if s.get("req_observe"):
                 req.opt.observe = 0
-            o, ridc = client.protect(req, kid_context=kc)
+            o, ridc = protect(client, req, kid_context=kc)
             _p, rids = fresh(server).unprotect(aiocoap.Message.decode(on_wire(o)))
             rids_c.append(ridc)
             rids_s.append(rids)
@@ -457,11 +464,11 @@ def run_sample(s):
         if s["ownpiv"]:
             rids_s[0].get_reusable_kid_and_piv()
             rids_s[1].get_reusable_kid_and_piv()
-        outer, _ = server.protect(plain, rids_s[0])
+        outer, _ = protect(server, plain, rids_s[0])
         g = Genuine("resp", plain, outer, secrets_, rids_c[0], answers=0)
         g.req_piv = pivs[0]
         server.sender_sequence_number = s["srvseq"] + 1 if s["srvseq"] + 1 < MAXSEQ - 1 else s["srvseq"] - 1
-        outer2, _ = server.protect(aiocoap.Message(code=aiocoap.CONTENT, payload=b"other response"), rids_s[1])
+        outer2, _ = protect(server, aiocoap.Message(code=aiocoap.CONTENT, payload=b"other response"), rids_s[1])
         other = Genuine("resp", aiocoap.Message(code=aiocoap.CONTENT), outer2, [], rids_c[1], answers=1)
         other.req_piv = pivs[1]
         rid_own, rid_other = rids_c[0], rids_c[1]
@@ -508,7 +515,7 @@ def run_behaviour(b):
             if a["observe"]:
                 m.opt.observe = 0
             client.sender_sequence_number = nreq + 1
-            outer, ridc = client.protect(m, kid_context=bool(a["sendCtx"]))
+            outer, ridc = protect(client, m, kid_context=bool(a["sendCtx"]))
             g = Genuine("req", m, outer, [b"req%d" % nreq], None)
             g.client_rid = ridc
             g.sendctx = bool(a["sendCtx"])
@@ -527,7 +534,7 @@ def run_behaviour(b):
                 srv_rid[a["ri"]].can_reuse_nonce = False  # consumed, as the model's `used`
             m = aiocoap.Message(code=aiocoap.CONTENT, payload=b"response-%d-payload" % nresp, max_age=nresp + 1)
             server.sender_sequence_number = 16 + nresp
-            outer, _ = server.protect(m, rid)
+            outer, _ = protect(server, m, rid)
             g = Genuine("resp", m, outer, [m.payload], net[a["ri"] - 1].client_rid, answers=a["ri"])
             g.req_piv = net[a["ri"] - 1].fields["piv"]
             g.sendctx = True
@@ -570,9 +577,16 @@ def run_behaviour(b):
     return {"trace": rec.events, "meta": {"unexpected": list(rec.unexpected.values()), "drift": drift}}
 
 
+class ProtectFailed(Exception):
+    pass
+
+
 def _run(x):
     try:
         return run_behaviour(x) if "steps" in x else run_sample(x)
+    except ProtectFailed as e:
+        # no protected message exists: nothing for C11 to judge
+        return {"trace": [], "meta": {"unexpected": [], "drift": ["protect() refused a message of the domain: %s" % e]}}
     except MachineryError as e:
         return {"error": "MachineryError: %s" % e}
     except Exception:
